@@ -214,6 +214,7 @@ CATALOGUE = [
     ("C01", "c01-any-decider-is-boolean", EL, "                return op.output_value in (0, 1) and not op.copy_count_from_input", "                return True", 1, "fire", "C01-R23"),
     ("C05", "c05-rs-latch-single-test", MB, "                \"compare_type\": \"or\",\n                \"first_signal\": output_signal,\n                \"first_signal_wires\": {\"green\"},  # feedback\n                \"second_constant\": 0,\n            },\n            {\n                \"comparator\": \"=\",\n                \"compare_type\": \"and\",\n                \"first_signal\": reset_signal_name,\n                \"first_signal_wires\": {\"red\"},\n                \"second_constant\": 0,\n            },\n        ]", "                \"compare_type\": \"or\",\n                \"first_signal\": output_signal,\n                \"first_signal_wires\": {\"green\"},  # feedback\n                \"second_constant\": 0,\n            },\n        ]", 1, "fire", "C05-R12"),
     ("C20", "c20-callee-local-counts-as-read", EL, "            if outer is None or outer[0].get(name) is value:\n                self.parent.referenced_signal_names.add(name)", "            self.parent.referenced_signal_names.add(name)", 1, "fire", "C20-R12"),
+    ("C02", "c02-named-condition-scalar-gate", EL, "        if isinstance(output_value_ref, BundleRef):\n            # cond : bundle - the whole bundle passes while the named condition is non-zero\n", "        if False:\n            # cond : bundle - the whole bundle passes while the named condition is non-zero\n", 1, "fire", "C02-R19"),
     ("C10", "c10-remainder-sign", "dsl_compiler/src/common/int32.py", "    return left - right * trunc_div(left, right)", "    remainder = abs(left) % abs(right)\n    return -remainder if (left < 0) != (right < 0) else remainder", 1, "fire", "C10-R17"),
     ("C11", "c11-remainder-sign", "dsl_compiler/src/common/int32.py", "    return left - right * trunc_div(left, right)", "    remainder = abs(left) % abs(right)\n    return -remainder if (left < 0) != (right < 0) else remainder", 1, "fire", "witness"),
 ]
